@@ -107,12 +107,19 @@ type regionSpec struct {
 	// expressions that stand for a free variable (list.count -> count)
 	from, to string
 	alias    map[string]string
+	// untilIfOn: the region ends before the first `if <ident> {` on this identifier.
+	// early: a block `output.data = …; return` inside the region is an early exit: the result gets a leading
+	// Bool (true = left early; the other components are the values at that point)
+	untilIfOn string
+	early     bool
 }
 
 var regions = []regionSpec{
 	{fn: "fnGetRange", leanName: "getRangeClamp", lenVar: "n", vars: []string{"start", "end", "n"}, varTypes: []string{"int", "int", "int"}, results: []string{"start", "end"}},
 	{fn: "dataStoreCommand.lrange", leanName: "lrangeClamp", from: "convert negative indexes", to: "find the start item",
 		vars: []string{"start", "stop", "count"}, varTypes: []string{"int", "int", "int"}, results: []string{"start", "stop"}, alias: map[string]string{"list.count": "count"}},
+	{fn: "fnBitCount", leanName: "bitcountClamp", from: "right side indexing", untilIfOn: "bitMode", early: true,
+		vars: []string{"start", "end", "length"}, varTypes: []string{"int", "int", "int"}, results: []string{"start", "end"}},
 	{fn: "dataStoreCommand.ltrim", leanName: "ltrimClamp", from: "convert negative list position args", to: "",
 		vars: []string{"start", "stop", "count"}, varTypes: []string{"int", "int", "int"}, results: []string{"start", "stop"}, alias: map[string]string{"list.count": "count"}},
 }
@@ -128,6 +135,7 @@ type env struct {
 	usedExt map[string]bool   // externals called
 	alias   map[string]string // selector expressions read as free variables
 	tuple   string            // what a field method "returns": the tuple of its fields
+	early   string            // region with early exits: the tuple of a `output.data = …; return` block
 	recv    string            // receiver name of a field method ("" otherwise): recv.f reads and writes the field f
 	vars    map[string]ty
 	funcs   map[string]*sig
@@ -442,6 +450,9 @@ func (ev *env) block(stmts []ast.Stmt, depth int) string {
 	in := indent(depth)
 	switch x := s.(type) {
 	case *ast.ReturnStmt:
+		if len(x.Results) == 0 && ev.early != "" {
+			return ev.early
+		}
 		if len(x.Results) == 0 {
 			if ev.resName == "" {
 				fail(x.Pos(), fset, "bare return")
@@ -477,6 +488,14 @@ func (ev *env) block(stmts []ast.Stmt, depth int) string {
 			fail(x.Pos(), fset, "multiple assignment")
 		}
 		id, ok := x.Lhs[0].(*ast.Ident)
+		if sel, isSel := x.Lhs[0].(*ast.SelectorExpr); isSel && ev.early != "" {
+			// `output.data = …` directly before the `return` of an early exit: the reply is not part of the arithmetic
+			if r, isId := sel.X.(*ast.Ident); isId && r.Name == "output" && len(rest) >= 1 {
+				if rs, isRet := rest[0].(*ast.ReturnStmt); isRet && len(rs.Results) == 0 {
+					return ev.early
+				}
+			}
+		}
 		if sel, isSel := x.Lhs[0].(*ast.SelectorExpr); isSel && ev.recv != "" {
 			if r, isId := sel.X.(*ast.Ident); isId && r.Name == ev.recv {
 				id, ok = sel.Sel, true
@@ -746,7 +765,7 @@ func findRegion(body *ast.BlockStmt, lenVar string) []ast.Stmt {
 
 // findCommentRegion: the statements of the innermost block that follow the comment containing `from`, up to the
 // comment containing `to` (when given) or the first loop
-func findCommentRegion(file *ast.File, fd *ast.FuncDecl, from, to string) []ast.Stmt {
+func findCommentRegion(file *ast.File, fd *ast.FuncDecl, from, to, untilIfOn string) []ast.Stmt {
 	var fromPos, toPos token.Pos
 	for _, cg := range file.Comments {
 		if cg.Pos() < fd.Body.Pos() || cg.End() > fd.Body.End() {
@@ -780,6 +799,11 @@ func findCommentRegion(file *ast.File, fd *ast.FuncDecl, from, to string) []ast.
 			if _, isFor := st.(*ast.ForStmt); isFor {
 				break
 			}
+			if is, isIf := st.(*ast.IfStmt); isIf && untilIfOn != "" {
+				if id, isId := is.Cond.(*ast.Ident); isId && id.Name == untilIfOn {
+					break
+				}
+			}
 			if _, isRange := st.(*ast.RangeStmt); isRange {
 				break
 			}
@@ -806,7 +830,7 @@ func translateRegion(fd *ast.FuncDecl, r regionSpec, funcs map[string]*sig) (out
 	}()
 	var stmts []ast.Stmt
 	if r.from != "" {
-		stmts = findCommentRegion(regionFile, fd, r.from, r.to)
+		stmts = findCommentRegion(regionFile, fd, r.from, r.to, r.untilIfOn)
 	} else {
 		stmts = findRegion(fd.Body, r.lenVar)
 	}
@@ -827,6 +851,11 @@ func translateRegion(fd *ast.FuncDecl, r regionSpec, funcs map[string]*sig) (out
 		rnames = append(rnames, ln(v))
 	}
 	ev.tuple = "(" + strings.Join(rnames, ", ") + ")"
+	if r.early {
+		ev.early = "(true, " + strings.Join(rnames, ", ") + ")"
+		ev.tuple = "(false, " + strings.Join(rnames, ", ") + ")"
+		rts = append([]string{"Bool"}, rts...)
+	}
 	body := ev.block(stmts, 1)
 	pos := fset.Position(fd.Pos())
 	where := "`" + r.lenVar + " := len(…)`"
